@@ -32,7 +32,10 @@ pub enum Mutation {
     InsertAttr(u16, u16, Vec<u8>),
 }
 
-const SEQS: [&[u8]; 14] = [
+const SEQS: [&[u8]; 17] = [
+    b"=",
+    b"==",
+    b"obMatJos2gA==",
     b"\xc3\xa9",
     b"\xe3\x83\x9e",
     b"\xf0\x9f\x98\x80",
